@@ -114,7 +114,7 @@ fn ops_mix() -> RunResult {
             let mut pb = ProactorBuilder::new();
             pb.capacity(capacity);
             iour.set(draw_driver(&mut pb) == compio_driver::DriverType::IoUring);
-            let concurrent = iour.get();
+            let concurrent = true;
             let rt = compio_runtime::Runtime::builder().with_proactor(pb).build().expect("runtime");
             let keep: Rc<RefCell<Vec<Box<dyn std::any::Any>>>> = Rc::default();
             rt.block_on(async {
@@ -173,9 +173,9 @@ fn ops_mix() -> RunResult {
         if iour.get() {
             let order = |s: &Seen| end.ledger.iter().find(|c| c.addr == s.addr).map(|c| c.evseq).unwrap_or(u64::MAX);
             mine.sort_by_key(|s| order(s));
-        } else {
-            mine.sort_by_key(|s| s.op);
         }
+        // (polling driver: no ledger; the order in which the program observed the completions, which is the
+        // order of `seen`: operations queued on one descriptor are served first come, first served)
         let total: usize = mine.iter().map(|s| s.res.unwrap_or(0)).sum();
         let stream = &streams.borrow()[li];
         check!(total <= stream.len() || p.lane == Lane::UnixWrites, "stream-length", "lane {li}: the reads returned {total} bytes, the peer wrote {}", stream.len());
